@@ -338,6 +338,9 @@ def run(ctx):
                     # Journal::get_writer returns a Result: it must be examined (`?` / match), not merely kept alive
                     rf = A.result_flow(fn, gs[0].site)
                     held = bool(rf.returned or rf.err_blocks) and not rf.swallowed
+                    # ... and nothing is changed on the edge where the lock could NOT be taken
+                    if held and rf.err_blocks and any(e in A.reach(fn, rf.err_blocks) for e in eff):
+                        held = False
                 if not held:
                     ok = False
                     detail = "the journal lock is not actually held when the poison flag is checked / the tables are registered (e.g. the Result of get_writer() is dropped instead of unwrapped with `?`)"
